@@ -293,6 +293,12 @@ func parsePath(mail bool, s string, f Flags, v *verdicts) (rest string, mboxes [
 		}
 		inner, rest = s[:end], s[end:]
 		unq := inner
+		if strings.HasPrefix(unq, "@") {
+			// the quoted local part, if any, follows the source route
+			if j := strings.IndexByte(unq, ':'); j >= 0 {
+				unq = unq[j+1:]
+			}
+		}
 		if strings.HasPrefix(unq, "\"") {
 			// skip the quoted local part: anything may occur inside it
 			for i := 1; i < len(unq); i++ {
@@ -348,7 +354,10 @@ func strictDomain(d string) bool {
 		// (IPv6 being the only tag in use). Anything else between brackets -
 		// and content with '<' or '>', which no literal in use has and which
 		// every path parser cuts at - is lenient syntax at best (unspecified).
-		if strings.ContainsAny(in, "<>") {
+		// A '"' is dcontent by the letter of the ABNF, but no literal in use
+		// has one and an address scanner may take it for the start of a
+		// quoted string (the client's own does, and refuses): unspecified.
+		if strings.ContainsAny(in, "<>\"") {
 			return false
 		}
 		if i := strings.IndexByte(in, ':'); i > 0 && i < len(in)-1 {
@@ -356,6 +365,15 @@ func strictDomain(d string) bool {
 			for j := 0; j < len(tag); j++ {
 				if !isLetDig(tag[j]) && !(tag[j] == '-' && j > 0 && j < len(tag)-1) {
 					return false
+				}
+			}
+			if strings.EqualFold(tag, "IPv6") {
+				// the one registered tag: its content is an IPv6 address, not
+				// any dcontent (how strictly it is read is the receiver's business)
+				for _, c := range []byte(in[i+1:]) {
+					if upperHex(c&^0x20) < 0 && !(c >= '0' && c <= '9') && c != ':' && c != '.' {
+						return false
+					}
 				}
 			}
 			return true
